@@ -76,6 +76,7 @@ func verifNewCache(clk clock.Clock, workers int) *RequestCache {
 // not run; after it succeeded or the TTL passed the next start runs again. At
 // most one execution is in flight for the key at any time.
 func VerifRequestCachePendingAndCachedError() {
+	verif.Option("panic_is_violation", 1) // a panic must never end a path silently
 	verif.Option("max_preempt", verif.Bound("preemptions", 1, 2))
 	clk := clock.NewMock()
 	rc := verifNewCache(clk, 4)
@@ -140,6 +141,7 @@ func VerifRequestCachePendingAndCachedError() {
 // while the runner goroutines interleave freely: never two in flight, a
 // request runs only if its Start was accepted, and exactly once.
 func VerifRequestCacheSingleFlight() {
+	verif.Option("panic_is_violation", 1) // a panic must never end a path silently
 	verif.Option("max_preempt", verif.Bound("preemptions", 2, 3))
 	clk := clock.NewMock()
 	rc := verifNewCache(clk, 4)
@@ -181,6 +183,7 @@ func VerifRequestCacheSingleFlight() {
 // leaves nothing pending for the key: a later Start for it is not rejected as
 // pending.
 func VerifRequestCacheWorkersBusy() {
+	verif.Option("panic_is_violation", 1) // a panic must never end a path silently
 	verif.Option("max_preempt", verif.Bound("preemptions", 1, 2))
 	clk := verifBusyClock{clock.NewMock()}
 	rc := verifNewCache(clk, 1)
